@@ -43,7 +43,7 @@ def variants():
 
 
 def budget(tier):
-    return 30 if tier == "quick" else 24
+    return 45 if tier == "quick" else 24
 
 
 def decode_case(raw):
